@@ -268,6 +268,7 @@ func runC08(c *Ctx) {
 	c.St.Rule = "container trees cloned, then a random mutation program applied inside the clone or inside the original (top level and nested, methods and tree-form paths), every live container snapshotted after every step; non-trivial = the tree has a nested container; distinct by tree and program"
 	opts := &TreeOpts{MaxDepth: 4, MaxWidth: 4, Keys: r.SimpleKey}
 	c.deepChains()
+	c.entryWays()
 	for i := 0; i < c.N(400, 6000); i++ {
 		m.Case("clone-then-mutate")
 		t := r.Container(opts, "[{"[r.Intn(2)])
@@ -359,6 +360,116 @@ func runC08(c *Ctx) {
 		}
 		c.St.Eval(t.Token()+fmt.Sprint(steps, i), t.Depth() >= 2)
 		c.St.Count(fmt.Sprintf("tree_depth_%d", t.Depth()))
+	}
+}
+
+// entryWays: every way a nested container can get into a list / an object that held only atoms so far,
+// then Clone, then a mutation of the nested container on the original side and on the clone side.
+func (c *Ctx) entryWays() {
+	m := c.M
+	listWays := []string{"add", "insert0", "insertmid", "insertend", "replace", "settf-leaf", "settf-new", "settf-deep", "newlist", "newlistof", "concat", "sublist", "filter", "map", "clone-of-clone"}
+	for _, way := range listWays {
+		for _, kind := range []byte("LO") {
+			m.Case("entry-ways")
+			var inner string
+			if kind == 'L' {
+				inner = m.NewList(gvInt(1), gvInt(2))
+			} else {
+				inner = m.NewObject(gvStr("k"), gvInt(1))
+			}
+			l := m.NewList(gvInt(10), gvStr("a"), gvFloat(2.5))
+			g := m.RefGV(inner)
+			switch way {
+			case "add":
+				m.Add(l, g)
+			case "insert0":
+				m.Insert(l, 0, g)
+			case "insertmid":
+				m.Insert(l, 1, g)
+			case "insertend":
+				m.Insert(l, 3, g)
+			case "replace":
+				m.Replace(l, 1, g)
+			case "settf-leaf":
+				m.SetTF(l, "#1", g)
+			case "settf-new":
+				m.SetTF(l, "#5", g)
+			case "settf-deep":
+				m.SetTF(l, "#1#0", g)
+			case "newlist":
+				l = m.NewList(gvInt(1), g, gvInt(2))
+			case "newlistof":
+				l = m.NewListOf(g, 2)
+			case "concat":
+				l = m.Concat(l, m.NewList(g))
+			case "sublist":
+				m.Insert(l, 1, g)
+				l = m.SubList(l, 0, 0)
+			case "filter":
+				m.Insert(l, 2, g)
+				l = m.Filter(l, "all")
+			case "map":
+				m.Insert(l, 1, g)
+				l = m.Map(l, &Fn{Name: "id"})
+			case "clone-of-clone":
+				m.Insert(l, 1, g)
+				l = m.Clone(l)
+			}
+			cl := m.Clone(l)
+			m.Equals(l, cl)
+			// mutate the nested container of the original; the snapshots show whether the clone follows
+			if kind == 'L' {
+				m.Add(inner, gvInt(99))
+			} else {
+				m.OSet(inner, gvStr("z"), gvInt(99))
+			}
+			// and a nested container of the clone
+			for i := 0; i < m.L(cl).Count(); i++ {
+				switch x := m.L(cl).Get(i).(type) {
+				case at.List:
+					m.Add(m.tokVal(x), gvInt(77))
+				case at.Object:
+					m.OSet(m.tokVal(x), gvStr("y"), gvInt(77))
+				}
+			}
+			c.St.Eval("entry:"+way+string(kind), true)
+		}
+	}
+	objWays := []string{"set", "settf", "settf-deep", "newobject", "merge", "pluck", "map", "newobjectfrom-native"}
+	for _, way := range objWays {
+		m.Case("entry-ways-object")
+		inner := m.NewList(gvInt(1), gvInt(2))
+		o := m.NewObject(gvStr("a"), gvInt(1), gvStr("b"), gvStr("x"))
+		g := m.RefGV(inner)
+		switch way {
+		case "set":
+			m.OSet(o, gvStr("c"), g)
+		case "settf":
+			m.OSetTF(o, ".c", g)
+		case "settf-deep":
+			m.OSetTF(o, ".c.d", g)
+		case "newobject":
+			o = m.NewObject(gvStr("c"), g)
+		case "merge":
+			o = m.Merge(o, m.NewObject(gvStr("c"), g))
+		case "pluck":
+			m.OSet(o, gvStr("c"), g)
+			o = m.Pluck(o, "c", "a")
+		case "map":
+			m.OSet(o, gvStr("c"), g)
+			o = m.OMap(o, &Fn{Name: "id"})
+		case "newobjectfrom-native":
+			o = m.NewObjectFrom(&GV{K: '<', Fl: 'l', Keys: []string{"c"}, Xs: []*GV{g}})
+		}
+		cl := m.OClone(o)
+		m.OEquals(o, cl)
+		m.Add(inner, gvInt(99))
+		for _, k := range sortedKeys(m.O(cl).Dict()) {
+			if x, ok := m.O(cl).Get(k).(at.List); ok {
+				m.Add(m.tokVal(x), gvInt(77))
+			}
+		}
+		c.St.Eval("entry-obj:"+way, true)
 	}
 }
 
